@@ -189,7 +189,7 @@ def _opkey(op):
     if op[0] in ("set", "setitem", "setcfg"):
         return "%s(%s)" % (op[0], _shape(op[2]))
     if op[0] in ("load_tree", "loads"):
-        return op[0]
+        return op[0] + ("-novalidate" if len(op) > 2 and op[2] == "nv" else "")
     return op[0]
 
 
